@@ -3,12 +3,13 @@ forced file order, and read back the name tables, the correlation order and reso
 import contextlib
 
 from harness.impl import fordrun as F
+from harness.gen import c06gen as G
 
 PUB = ["pub_procs", "pub_absints", "pub_types", "pub_vars"]
 ALL = ["all_procs", "all_absinterfaces", "all_types", "all_vars"]
 KIND_OF_CLASS = {"FortranVariable": {"var"}, "FortranType": {"type"}, "FortranSubroutine": {"proc"},
                  "FortranFunction": {"proc"}, "FortranInterface": {"generic"},
-                 "FortranModuleProcedureInterface": {"abs"}}
+                 "FortranModuleProcedureInterface": {"abs", "iface"}}
 
 
 @contextlib.contextmanager
@@ -40,9 +41,35 @@ def correlate_spy(log):
 
 
 def ident(obj):
-    """(defining module, name) of an entity object, lower-cased"""
+    """(enclosing module or program, name) of an entity object, lower-cased"""
+    import ford.sourceform as sf
     par = getattr(obj, "parent", None)
+    for _ in range(12):
+        if par is None or isinstance(par, (sf.FortranModule, sf.FortranProgram, sf.FortranSourceFile)):
+            break
+        par = getattr(par, "parent", None)
     return (str(getattr(par, "name", "?")).lower(), str(getattr(obj, "name", "?")).lower())
+
+
+def find_scope(unit_obj, path, kinds):
+    """the FORD object of a nested scope, following the names of the path"""
+    cur = unit_obj
+    for name, kind in zip(path, kinds):
+        name = name.lower()
+        if kind == "genblock":
+            pool = [i for i in getattr(cur, "interfaces", []) if getattr(i, "generic", False)]
+        elif kind in ("routine", "genbody"):
+            pool = list(getattr(cur, "subroutines", [])) + list(getattr(cur, "functions", []))
+        elif kind == "ifbody":
+            pool = [i.procedure for i in getattr(cur, "interfaces", []) if hasattr(i, "procedure")]
+        elif kind == "absbody":
+            pool = [i.procedure for i in getattr(cur, "absinterfaces", []) if hasattr(i, "procedure")]
+        else:
+            return None
+        cur = next((x for x in pool if str(x.name).lower() == name), None)
+        if cur is None:
+            return None
+    return cur
 
 
 def observe(units, files, where, unit_order):
@@ -54,14 +81,18 @@ def observe(units, files, where, unit_order):
     with F.Work(files) as w:
         with forced_order(w.root, rels), correlate_spy(log):
             try:
-                p = F.parse_project(w.root)
+                p = F.parse_project(w.root, proc_internals=True, display=["public", "private", "protected"])
             except Exception as e:  # noqa
                 return "EXC:" + type(e).__name__, None, [str(e)[:300]]
         problems = []
         if "Error parsing" in p._verif_log or "ERROR" in p._verif_log:
             problems.append("parse: " + p._verif_log[-400:])
         byname = {u["name"].lower(): u for u in units}
-        obs_units, refs = [], []
+        leaked = {(u["name"].lower(), r["var"].lower()) for u in units for _, _, nd in G.nested_nodes(u)
+                  for r in nd["refs"] if r["what"] != "call"}
+        leaked |= {(u["name"].lower(), path[-1].lower()) for u in units for path, kinds, _ in G.nested_nodes(u)
+                   if len([k for k in kinds if k != "genblock"]) > 1}
+        obs_units, refs, nested = [], [], []
         parsed = list(p.modules) + list(p.programs)
         if [m.name.lower() for m in p.modules] != [n.lower() for n in unit_order if byname[n.lower()]["unit"] == "module"]:
             problems.append("file order not honoured: %s" % [m.name for m in p.modules])
@@ -81,11 +112,13 @@ def observe(units, files, where, unit_order):
                     dm, dn = ident(v)
                     du = byname.get(dm)
                     dd = next((d for d in (du or {"decls": []})["decls"] if d["name"].lower() == dn), None)
+                    if dd is None and (dm, dn) in leaked:
+                        continue        # a procedure's local variable in the shared dictionary (C07)
                     if dd is None or dd["kind"] not in KIND_OF_CLASS.get(type(v).__name__, set()):
                         problems.append(f"{m.name}.{t}[{k}] is {type(v).__name__} {dm}.{dn}: not a declared entity of that kind")
             for d in u["decls"]:
                 tab = {"var": "all_vars", "type": "all_types", "proc": "all_procs", "generic": "all_procs",
-                       "abs": "all_absinterfaces"}[d["kind"]]
+                       "abs": "all_absinterfaces", "iface": "all_procs"}[d["kind"]]
                 o = getattr(m, tab).get(d["name"].lower())
                 if o is None or ident(o) != (m.name.lower(), d["name"].lower()):
                     continue   # shadowed by an import (a clash case); the tables show it
@@ -124,9 +157,42 @@ def observe(units, files, where, unit_order):
                     for key, c in zip(names, got):
                         refs.append({"unit": m.name.lower(), "cls": "CProc", "id": key,
                                      "ent": None if isinstance(c, str) else ident(c)})
+            # nested scopes: their dictionaries and the references they make
+            for path, kinds, nd in G.nested_nodes(u):
+                sc = find_scope(m, path, kinds)
+                cpath = [x.lower() for x, k in zip(path, kinds) if k != "genblock"]
+                if sc is None or not hasattr(sc, "all_types"):
+                    problems.append(f"nested scope {m.name}/{'/'.join(path)} not found or not correlated")
+                    continue
+                nested.append({"unit": m.name.lower(), "path": cpath,
+                               "all": [sorted((k, ident(v)) for k, v in getattr(sc, t).items()) for t in ALL]})
+                local = {v.name.lower(): v for v in list(getattr(sc, "variables", [])) + list(getattr(sc, "args", []))}
+                for r in nd["refs"]:
+                    if r["what"] == "call":
+                        continue
+                    v = local.get(r["var"].lower())
+                    if v is None:
+                        problems.append(f"variable {r['var']} of {m.name}/{'/'.join(path)} not found")
+                        continue
+                    got = v.proto[0] if getattr(v, "proto", None) else None
+                    refs.append({"unit": m.name.lower(), "path": cpath, "cls": "CType" if r["what"] == "type" else "CAbs",
+                                 "id": r["id"].lower(), "ent": None if (got is None or isinstance(got, str)) else ident(got)})
+                names = []
+                for r in nd["refs"]:
+                    if r["what"] == "call" and r["id"].lower() not in names:
+                        names.append(r["id"].lower())
+                if names:
+                    got = list(getattr(sc, "calls", []))
+                    if len(got) != len(names):
+                        problems.append(f"calls of {m.name}/{'/'.join(path)}: {len(got)} entries for {len(names)} names")
+                    else:
+                        for key, c in zip(names, got):
+                            refs.append({"unit": m.name.lower(), "path": cpath, "cls": "CProc", "id": key,
+                                         "ent": None if isinstance(c, str) else ident(c)})
         obs_units.sort(key=lambda o: o["name"])
-        refs.sort(key=lambda f: (f["unit"], f["cls"], f["id"]))
-        return {"units": obs_units, "refs": refs}, log, problems
+        refs.sort(key=lambda f: (f["unit"], f.get("path", []), f["cls"], f["id"]))
+        nested.sort(key=lambda q: (q["unit"], q["path"]))
+        return {"units": obs_units, "refs": refs, "nested": nested}, log, problems
 
 
 def html_refs(units, files):
